@@ -84,6 +84,11 @@ func (ex *Exec) call(st *State, in ssa.Instruction, c *ssa.CallCommon) (Value, b
 	if lockOp(name) != "" && len(args) == 1 && ex.lockCall(st, in, name, args[0].V) {
 		return Tu{}, false
 	}
+	if strings.HasPrefix(name, "encoding/json.") {
+		if v, ok := ex.jsonCall(st, in, name, c); ok {
+			return v, false
+		}
+	}
 	if name == "sort.Slice" && len(c.Args) == 2 {
 		if v, ok := ex.sortSlice(st, in, c); ok {
 			return v, false
